@@ -317,6 +317,8 @@ func checkC17(p *Prog, r *Report) {
 	}
 	r.Floor("R5", "order edges", len(lo.Edges), 3)
 	r.Stat("functions analysed", len(ls.fns))
+	r.Rule("R9", "the guarded object does not escape its lock: the function-data store keeps a private copy, never the object its caller (and the event handlers that were handed it) still reads (shared with C11-O1)")
+	noAliasIn(p, r, "R9")
 	r.Rule("R8", "a list field whose slice header a getter hands out (callers iterate it without the lock) is never modified in place: no element store, no copy into it, no in-place library routine (slices.DeleteFunc, sort.Slice, …); removal builds a new slice")
 	escapedListsImmutable(p, ls, r, "R8", nil)
 	// R7: snapshots are read without any lock (replies being encoded, application code), so a write in place
